@@ -14,6 +14,8 @@ pub struct Tok {
 
 pub struct Parsed {
     pub toks: Vec<Tok>,
+    /// token texts with adjacent comments merged
+    pub merged: Vec<String>,
     /// per comment: preorder node kinds of the comment's subtree (doc tags, doc types …)
     pub comment_shapes: Vec<String>,
 }
@@ -116,11 +118,28 @@ pub fn parse(text: &str, level: LuaLanguageLevel, cfg: &LuaFormatConfig) -> Opti
         }
         out.push(t.clone());
     }
-    Some(Parsed { toks: out, comment_shapes: shapes })
+    // doc structure: one flat sequence of node kinds over all comments (without the comment roots)
+    let flat: Vec<String> = shapes
+        .iter()
+        .flat_map(|s| s.split(',').filter(|k| *k != "Comment" && !k.is_empty()).map(|k| k.to_string()).collect::<Vec<_>>())
+        .collect();
+    let mut merged: Vec<String> = Vec::with_capacity(out.len());
+    let mut last_comment = false;
+    for t in &out {
+        if t.comment && last_comment {
+            merged.last_mut().unwrap().push_str(&t.text[2..]);
+        } else {
+            merged.push(t.text.clone());
+        }
+        last_comment = t.comment;
+    }
+    Some(Parsed { toks: out, merged, comment_shapes: vec![flat.join(",")] })
 }
 
+/// the token texts; adjacent comments count as one: whether a trailing comment and the comment on the next
+/// line form one comment node or two depends on layout only (text and order of all comment bytes are compared)
 pub fn texts(p: &Parsed) -> Vec<&str> {
-    p.toks.iter().map(|t| t.text.as_str()).collect()
+    p.merged.iter().map(|t| t.as_str()).collect()
 }
 
 /// first difference between two token sequences, for messages
